@@ -239,6 +239,10 @@ impl Model {
                             "write-with-nothing-buffered",
                             format!("{} wrote {:?} although nothing was buffered", ctx, bytes_str(&a.bytes)),
                         );
+                        // and it may break the framing rules as well (too large, or not whole lines)
+                        if a.bytes.len() > self.cap || !self.decomposes(&a.bytes) {
+                            self.foreign(&mut out, &a.bytes, ctx);
+                        }
                         continue;
                     }
                     match self.pending_prefix(&a.bytes, &self.pending) {
